@@ -548,11 +548,16 @@ func (af *AdaptationField) SetHasAdaptationFieldExtension(value bool) error {
 		return err
 	}
 	delta := 1 * af.bitDelta(5, 0x01, value)
+	if delta < 0 {
+		delta = -af.adaptationExtensionLength() // remove the extension together with its length byte
+	}
 	err := af.resizeAF(af.adaptationExtensionStart(), delta)
 	if err != nil {
 		return err
 	}
-	af[af.adaptationExtensionStart()] = 0
+	if delta > 0 {
+		af[af.adaptationExtensionStart()] = 0
+	}
 	af.setBit(5, 0x01, value)
 	return nil
 }
